@@ -338,8 +338,53 @@ def build_modelfunc(spec):
         fm.expression_format_string = " + ".join("{%s}" % p for p in pn)
         fm.latex_expression_format_string = r" \oplus ".join("{%s}" % p for p in pn)
         for i, a in enumerate(fm.arg_formatters):
+            if spec["fmt"] == 2:  # arguments renamed for display as well
+                a.name = "arg%d" % i
             a.latex_name = r"\alpha_{%d}" % i
     return mf
+
+
+FORMATTERS = ["function-base", "function-base-custom", "function-base-renamed", "function-indexed", "function-indexed-custom", "function-indexed-renamed", "parameter", "parameter-custom"]
+
+
+def build_formatter(spec):
+    """the formatter objects offer to_file / from_file themselves (they are also embedded in model functions)"""
+    from kafe2.fit._base import ParameterFormatter
+
+    key = spec["f"]
+    if key.startswith("function"):
+        mf = build_modelfunc(dict(mf="indexed-def" if "indexed" in key else "base-def", fmt=2 if key.endswith("renamed") else int(key.endswith("custom"))))
+        fm = mf.formatter
+        if "indexed" in key and not key.endswith("indexed"):
+            fm.index_name = "j"
+            fm.latex_index_name = r"\jmath"
+        return fm
+    if key == "parameter":
+        return ParameterFormatter("tau")
+    return ParameterFormatter("tau", name="lifetime", latex_name=r"\tau_{\mu}")
+
+
+def observe_formatter(fm):
+    from kafe2.fit._base import ParameterFormatter
+
+    o = collections.OrderedDict()
+    o["class"] = type(fm).__name__
+    o["name"] = _get(lambda: fm.name)
+    o["latex_name"] = _get(lambda: fm.latex_name)
+    if isinstance(fm, ParameterFormatter):
+        o["arg_name"] = _get(lambda: fm.arg_name)
+        for latex in (False, True):
+            o["formatted:%s" % ("latex" if latex else "plain")] = _get(lambda latex=latex: fm.get_formatted(with_name=True, with_value=False, with_errors=False, format_as_latex=latex))
+        return o
+    o["expression"] = _get(lambda: fm.expression_format_string)
+    o["latex_expression"] = _get(lambda: fm.latex_expression_format_string)
+    o["args"] = _get(lambda: [(a.arg_name, a.name, a.latex_name) for a in fm.arg_formatters])
+    if hasattr(fm, "index_name"):
+        o["index_name"] = _get(lambda: fm.index_name)
+        o["latex_index_name"] = _get(lambda: fm.latex_index_name)
+    for latex in (False, True):
+        o["formatted:%s" % ("latex" if latex else "plain")] = _get(lambda latex=latex: fm.get_formatted(with_par_values=False, with_expression=True, format_as_latex=latex))
+    return o
 
 
 CONSTRAINTS = collections.OrderedDict(
@@ -447,6 +492,8 @@ def build_fit(spec):
                 fit.assign_model_function_latex_name(r"\varphi")
                 fit.assign_model_function_latex_expression(r" \oplus ".join("{%s}" % p for p in par_names))
                 fit.assign_model_function_expression(" + ".join("{%s}" % p for p in par_names))
+            if spec["labels"] == 2:  # parameters renamed for display as well
+                fit.assign_parameter_names(**{p: "par_%s" % p for p in par_names})
             fit.assign_parameter_latex_names(**{p: r"\alpha_{%d}" % i for i, p in enumerate(par_names)})
         st = spec.get("state", "unfit")
         if st == "moved":
@@ -514,6 +561,8 @@ def build(spec):
             return build_modelfunc(spec)
         if kind == "constraint":
             return build_constraint(spec)
+        if kind == "formatter":
+            return build_formatter(spec)
         if kind == "fit":
             return build_fit(spec)
     raise ValueError(kind)
